@@ -102,6 +102,13 @@ CHECKS.update({
   text="TLC proves for the bounded implementation-shaped model (3 files incl. a copied support file, modes {444,644}, ~85 option sets, foreign / chmod / remove environment actions) that every run end satisfies the property, with three negative controls refuted; all 2-run (thorough: 3-run) histories and hundreds to thousands of simulated and random 3-9 step histories are replayed into one directory through nunavut.cli.main() in forked processes running as uid 65534 (root ignores read-only bits) and through real subprocesses, the (sha256, st_mode) snapshot after every step compared with the model and judged by the trace spec.",
   note=TB + "fresh reference = same invocation into an empty directory; harness-injected copied support resource; files owned by the caller, umask 022, tree quiescent (the check exits 2 if the tree changes during a run)."),
 })
+
+CHECKS.update({
+ "C08": dict(cat="model_checking", ref="DESIGN.md §6 C08",
+  technique="TLA+ model of the runner's four modes, checked with TLC (I=>P over the option product x mode interleavings x input perturbation, three negative controls); every emitted combination and seeded random namespace sets executed against the real CLI and validated as traces by the P-layer; input influence established metamorphically",
+  text="TLC exhausts the bounded runner design (4 languages x generate-support x omit x namespace-types x templates x support-templates x lookup x extension x stem = 2048 combinations, all interleavings of list-outputs / list-inputs / dry-run / run) against the three clauses; every option combination (quick: a spec-defined subset of 512, thorough: all 2048) plus 40-400 random namespace sets with random options is executed through `python -m nunavut` in scratch trees with whole-tree snapshots (type, size, mtime_ns, mode, sha256) before/after, and the recorded histories are accepted or rejected by the TLA+ property layer alone. inputs_cover is metamorphic testing: one edit per candidate input, influence counted only when baseline and perturbed runs are each stable.",
+  note=TB + "the snapshot sees all effects inside the scratch tree; templates included without the .j2 suffix (html assets) are recorded as ambiguous."),
+})
 NOT_YET = {}
 props = [json.loads(l) for l in open(V / "properties.jsonl")]
 checks, na = [], []
